@@ -61,6 +61,13 @@ func init() {
 	checks["C02"] = func(tier string, seed uint64, res *Result) error {
 		res.Rule = "generated client calls answered by a scripted peer with a mutation of the valid reply (field corruption, all exception codes, all function codes, truncation, extension, foreign frames, random, silence; random segmentation and stream ending); result, bytes consumed and transaction counter compared with the Lean model; distinct = (scheme, method, reply class, outcome class)"
 		cases := runClientCases(seed+7, scale(tier, 500, 8000), 16, false, res)
-		return compareWithModel("cex", cases, res)
+		if err := compareWithModel("cex", cases, res); err != nil {
+			return err
+		}
+		// "a reply to that very request (matching transaction)": short histories with late,
+		// duplicated and missing replies (the full version is C05's check)
+		c05N = scale(tier, 40, 300)
+		defer func() { c05N = 0 }()
+		return c05Histories(tier, seed+11, res)
 	}
 }
